@@ -1,4 +1,6 @@
 import Req.Client.HeaderSort
+import Req.H1.RequestWrite
+import Req.H2.Fields
 /-!
 C16 — property theorems (sorting part).
 `sort_perm`: ordering never adds, drops or duplicates a field.
@@ -147,5 +149,405 @@ key really gets reordered to "A","B","X". -/
 example :
     (sortKeyValues [⟨[66], []⟩, ⟨[88], []⟩, ⟨[65], []⟩] [[97], [98]]).map (·.key)
       = [[65], [66], [88]] := by decide
+
+/-! ## Wire part: what the three writers transmit
+
+`linesOf` flattens key/value groups into the header lines / fields actually written (one per
+value). The theorems below are about the collectors of `Req.H1.RequestWrite` (HTTP/1.1) and
+`Req.H2.Fields` (HTTP/2, HTTP/3). -/
+
+section Wire
+open Req.Proto Req.H1 Req.H2 Req.Validate Req.BStr
+
+theorem linesOf_perm {a b : List KV} (h : a.Perm b) : (linesOf a).Perm (linesOf b) :=
+  List.Perm.flatMap_right _ h
+
+theorem linesOf_append (a b : List KV) : linesOf (a ++ b) = linesOf a ++ linesOf b := by
+  simp [linesOf]
+
+/-! ### insertion sort by key is a permutation -/
+
+theorem insertBy_perm {β} (le : β → β → Bool) (x : β) (l : List β) :
+    (insertBy le x l).Perm (x :: l) := by
+  induction l with
+  | nil => simp [insertBy]
+  | cons y ys ih =>
+    unfold insertBy
+    split
+    · exact List.Perm.refl _
+    · exact (List.Perm.cons y ih).trans (List.Perm.swap x y ys)
+
+theorem isortBy_perm {β} (le : β → β → Bool) (l : List β) : (isortBy le l).Perm l := by
+  induction l with
+  | nil => simp [isortBy]
+  | cons x xs ih =>
+    unfold isortBy at ih ⊢
+    simp only [List.foldr_cons]
+    exact (insertBy_perm le x _).trans (List.Perm.cons x ih)
+
+/-! ### HTTP/1.1 -/
+
+/-- The caller's fields as the property describes them, no ordering involved: every key the
+writer does not handle itself (`exclude`, exact spelling) and that is a valid field name, with
+each value sanitised (CR/LF → space, surrounding white space removed). -/
+def callerFields (h : Hdr) (exclude : List Bytes) : Hdr :=
+  (h.filter fun kv => !exclude.contains kv.key && validHeaderFieldName kv.key).map fun kv =>
+    ⟨kv.key, kv.values.map sanitizeValue⟩
+
+theorem writeSubset_perm (h : Hdr) (exclude : List Bytes) (mode : Bool) :
+    (writeSubset h exclude mode).Perm (callerFields h exclude) := by
+  unfold writeSubset callerFields
+  simp only
+  apply List.Perm.map
+  have hp : (if mode = true then List.filter (fun kv => !exclude.contains kv.key) h
+      else isortBy (fun a b => le a.key b.key) (List.filter (fun kv => !exclude.contains kv.key) h)).Perm
+      (List.filter (fun kv => !exclude.contains kv.key) h) := by
+    split
+    · exact List.Perm.refl _
+    · exact isortBy_perm _ _
+  have := List.Perm.filter (fun kv : KV => validHeaderFieldName kv.key) hp
+  rw [List.filter_filter] at this
+  refine this.trans ?_
+  apply List.Perm.of_eq
+  congr 1
+  funext kv
+  simp [Bool.and_comm]
+
+/-- the fields the writer adds itself: Host, User-Agent (caller's first value, or the default, or
+none when blank), `Connection: close`, Content-Length / Transfer-Encoding. -/
+def ownFieldsH1 (r : WReq) (host : Bytes) (f : Framing) : Hdr :=
+  let ua := if (hdrGet? r.header sUserAgent).isSome then hdrFirst r.header sUserAgent
+            else defaultUserAgent
+  [⟨sHost, [host]⟩] ++ (if ua.isEmpty then [] else [⟨sUserAgent, [ua]⟩]) ++ framingFields r f
+
+/-- **wire_set (HTTP/1.1)**: whatever the header-order list and whatever order Go iterates the
+header map in, the multiset of header lines on the wire is the writer's own fields plus every
+caller value exactly once (name in the caller's spelling) plus the transport's extra headers —
+nothing added, dropped or duplicated. -/
+theorem wire_set_h1 (r : WReq) (host : Bytes) (f : Framing) :
+    (linesOf (h1Fields r host f)).Perm
+      (linesOf (ownFieldsH1 r host f) ++ linesOf (callerFields r.header reqWriteExcludeHeader) ++
+        linesOf (callerFields r.extra [])) := by
+  have hcol : ∀ mode : Bool,
+      (linesOf (ownFieldsH1 r host f ++ writeSubset r.header reqWriteExcludeHeader mode ++
+        writeSubset r.extra [] mode)).Perm
+      (linesOf (ownFieldsH1 r host f) ++ linesOf (callerFields r.header reqWriteExcludeHeader) ++
+        linesOf (callerFields r.extra [])) := by
+    intro mode
+    rw [linesOf_append, linesOf_append]
+    exact List.Perm.append (List.Perm.append (List.Perm.refl _)
+      (linesOf_perm (writeSubset_perm _ _ _))) (linesOf_perm (writeSubset_perm _ _ _))
+  unfold h1Fields
+  simp only
+  split
+  · refine (linesOf_perm (sort_perm _ _)).trans ?_
+    simpa [ownFieldsH1, List.append_assoc] using hcol (!(orderList r.header).isEmpty)
+  · simpa [ownFieldsH1, List.append_assoc] using hcol (!(orderList r.header).isEmpty)
+
+/-- the two bookkeeping keys -/
+def isBookkeeping (k : Bytes) : Bool := k == headerOrderKey || k == pseudoHeaderOrderKey
+
+theorem callerFields_mem_key {h : Hdr} {ex : List Bytes} {kv : KV} (hm : kv ∈ callerFields h ex) :
+    ex.contains kv.key = false ∧ validHeaderFieldName kv.key = true := by
+  unfold callerFields at hm
+  obtain ⟨kv0, h0, rfl⟩ := List.mem_map.mp hm
+  have := (List.mem_filter.mp h0).2
+  simpa using this
+
+theorem mem_linesOf {h : List KV} {k v : Bytes} (hm : (k, v) ∈ linesOf h) :
+    ∃ kv ∈ h, kv.key = k ∧ v ∈ kv.values := by
+  unfold linesOf at hm
+  obtain ⟨kv, hkv, hv⟩ := List.mem_flatMap.mp hm
+  obtain ⟨v', hv', heq⟩ := List.mem_map.mp hv
+  cases heq
+  exact ⟨kv, hkv, rfl, hv'⟩
+
+/-- the names of the fields the HTTP/1.1 writer adds itself -/
+def ownKeysH1 : List Bytes := [sHost, sUserAgent, sConnection, sContentLength, sTransferEncoding]
+
+theorem ownKeys_not_bookkeeping : ∀ k ∈ ownKeysH1, isBookkeeping k = false := by decide
+
+theorem mem_ite_l {c : Prop} [Decidable c] {x kv : KV} (h : kv ∈ (if c then [x] else [])) :
+    kv = x := by
+  split at h <;> simp at h; exact h
+
+theorem mem_ite_r {c : Prop} [Decidable c] {x kv : KV} (h : kv ∈ (if c then [] else [x])) :
+    kv = x := by
+  split at h <;> simp at h; exact h
+
+theorem mem_ite_lr {c d : Prop} [Decidable c] [Decidable d] {x y kv : KV}
+    (h : kv ∈ (if c then [x] else if d then [y] else [])) : kv = x ∨ kv = y := by
+  split at h
+  · simp at h; exact Or.inl h
+  · exact Or.inr (mem_ite_l h)
+
+theorem ownFieldsH1_keys (r : WReq) (host : Bytes) (f : Framing) :
+    ∀ kv ∈ ownFieldsH1 r host f, kv.key ∈ ownKeysH1 := by
+  intro kv hkv
+  unfold ownFieldsH1 framingFields at hkv
+  simp only [List.mem_append, List.mem_singleton] at hkv
+  rcases hkv with ((hkv | hkv) | hkv | hkv)
+  · subst hkv; exact (by decide : sHost ∈ ownKeysH1)
+  · have := mem_ite_r hkv
+    subst this; exact (by decide : sUserAgent ∈ ownKeysH1)
+  · have := mem_ite_l hkv
+    subst this; exact (by decide : sConnection ∈ ownKeysH1)
+  · rcases mem_ite_lr hkv with h | h
+    · subst h; exact (by decide : sContentLength ∈ ownKeysH1)
+    · subst h; exact (by decide : sTransferEncoding ∈ ownKeysH1)
+
+/-- **bookkeeping keys never on the HTTP/1.1 wire** (`__header_order__`,
+`__pseudo_header_order__`), provided the transport's own extra headers do not contain them (they
+are `Accept-Encoding` / `Connection`). -/
+theorem h1_no_bookkeeping (r : WReq) (host : Bytes) (f : Framing)
+    (hextra : ∀ kv ∈ r.extra, isBookkeeping kv.key = false) :
+    ∀ kv ∈ linesOf (h1Fields r host f), isBookkeeping kv.1 = false := by
+  intro ⟨k, v⟩ hm
+  have hm' := (wire_set_h1 r host f).mem_iff.mp hm
+  simp only [List.mem_append] at hm'
+  rcases hm' with (hm' | hm') | hm'
+  · obtain ⟨kv, hkv, rfl, _⟩ := mem_linesOf hm'
+    exact ownKeys_not_bookkeeping _ (ownFieldsH1_keys r host f kv hkv)
+  · obtain ⟨kv, hkv, rfl, _⟩ := mem_linesOf hm'
+    have hex := (callerFields_mem_key hkv).1
+    unfold isBookkeeping
+    have h1 : (kv.key == headerOrderKey) = false := by
+      cases hb : kv.key == headerOrderKey with
+      | false => rfl
+      | true =>
+        have : kv.key = headerOrderKey := by simpa using hb
+        rw [this] at hex
+        exact absurd hex (by decide)
+    have h2 : (kv.key == pseudoHeaderOrderKey) = false := by
+      cases hb : kv.key == pseudoHeaderOrderKey with
+      | false => rfl
+      | true =>
+        have : kv.key = pseudoHeaderOrderKey := by simpa using hb
+        rw [this] at hex
+        exact absurd hex (by decide)
+    simp [h1, h2]
+  · obtain ⟨kv, hkv, rfl, _⟩ := mem_linesOf hm'
+    unfold callerFields at hkv
+    obtain ⟨kv0, h0, rfl⟩ := List.mem_map.mp hkv
+    exact hextra kv0 (List.mem_filter.mp h0).1
+
+/-- **h1_noncanonical_spelling**: every value of every caller key that is a valid field name and
+is not one the writer handles itself is on the HTTP/1.1 wire under EXACTLY the caller's spelling
+of the name (no canonicalisation, no lower-casing), header-order mode or not. -/
+theorem h1_noncanonical_spelling (r : WReq) (host : Bytes) (f : Framing) (kv : KV)
+    (hkv : kv ∈ r.header) (hex : reqWriteExcludeHeader.contains kv.key = false)
+    (hname : validHeaderFieldName kv.key = true) (v : Bytes) (hv : v ∈ kv.values) :
+    (kv.key, sanitizeValue v) ∈ linesOf (h1Fields r host f) := by
+  apply (wire_set_h1 r host f).mem_iff.mpr
+  simp only [List.mem_append]
+  refine Or.inl (Or.inr ?_)
+  unfold linesOf callerFields
+  apply List.mem_flatMap.mpr
+  refine ⟨⟨kv.key, kv.values.map sanitizeValue⟩, ?_, ?_⟩
+  · apply List.mem_map.mpr
+    have hex' : ¬ kv.key ∈ reqWriteExcludeHeader := by simpa using hex
+    exact ⟨kv, List.mem_filter.mpr ⟨hkv, by simp [hex', hname]⟩, rfl⟩
+  · simp only [List.mem_map]
+    exact ⟨sanitizeValue v, ⟨v, hv, rfl⟩, rfl⟩
+
+/-- non-vacuity: `x-MiXed` (set with SetHeaderNonCanonical) and `X-B`, order list `x-b, x-mixed`:
+spelling kept, listed order respected (the unlisted Host / User-Agent keep their slice positions),
+bookkeeping key gone. -/
+example :
+    (linesOf (h1Fields
+      { method := [71, 69, 84], url := {}, header :=
+          [⟨[120, 45, 77, 105, 88, 101, 100], [[49]]⟩, ⟨[88, 45, 66], [[50]]⟩,
+           ⟨headerOrderKey, [[120, 45, 98], [120, 45, 109, 105, 120, 101, 100]]⟩] }
+      [104] ⟨false, false, 0⟩)).map (·.1)
+    = [sHost, [88, 45, 66], sUserAgent, [120, 45, 77, 105, 88, 101, 100]] := by decide
+
+/-! ### independence of Go's map iteration order -/
+
+/-- a lookup by key does not depend on the iteration order of a map (distinct keys). -/
+theorem hdrGet?_perm {a b : Hdr} (hp : a.Perm b) (hnd : (a.map (·.key)).Nodup) (k : Bytes) :
+    hdrGet? a k = hdrGet? b k := by
+  unfold hdrGet?
+  congr 1
+  induction hp with
+  | nil => rfl
+  | cons x _ ih =>
+    simp only [List.map_cons, List.nodup_cons] at hnd
+    simp only [List.find?_cons]
+    split
+    · rfl
+    · exact ih hnd.2
+  | swap x y l =>
+    simp only [List.map_cons, List.nodup_cons, List.mem_cons, not_or] at hnd
+    simp only [List.find?_cons]
+    cases hx : x.key == k <;> cases hy : y.key == k <;> simp
+    have ex : x.key = k := by simpa using hx
+    have ey : y.key = k := by simpa using hy
+    exact absurd (ey.trans ex.symm) hnd.1.1
+  | trans h1 _ ih1 ih2 =>
+    rw [ih1 hnd]
+    exact ih2 ((h1.map _).nodup_iff.mp hnd)
+
+theorem callerFields_perm {a b : Hdr} (hp : a.Perm b) (ex : List Bytes) :
+    (callerFields a ex).Perm (callerFields b ex) :=
+  List.Perm.map _ (List.Perm.filter _ hp)
+
+/-- **wire_set is independent of the map iteration order (HTTP/1.1)**: two runs that differ only
+in the order Go iterates the header map and the extra-header map in put the same multiset of
+header lines on the wire. -/
+theorem wire_set_h1_perm_invariant (r r' : WReq) (host : Bytes) (f : Framing)
+    (hh : r.header.Perm r'.header) (he : r.extra.Perm r'.extra)
+    (hnd : (r.header.map (·.key)).Nodup)
+    (hm : r'.method = r.method) (hc : r'.close = r.close) :
+    (linesOf (h1Fields r host f)).Perm (linesOf (h1Fields r' host f)) := by
+  refine (wire_set_h1 r host f).trans (List.Perm.trans ?_ (wire_set_h1 r' host f).symm)
+  have hown : ownFieldsH1 r host f = ownFieldsH1 r' host f := by
+    unfold ownFieldsH1 framingFields hdrFirst
+    simp only [hdrGet?_perm hh hnd, hm, hc]
+  rw [hown]
+  exact List.Perm.append (List.Perm.append (List.Perm.refl _)
+    (linesOf_perm (callerFields_perm hh _))) (linesOf_perm (callerFields_perm he _))
+
+/-! ### HTTP/2 and HTTP/3 -/
+
+/-- **wire_set (HTTP/2, HTTP/3)**: when a header block is produced, its fields are a permutation
+of the default-order pseudo fields followed by the default-order regular fields — neither order
+list adds, drops or duplicates a field. -/
+theorem wire_set_h2 (fl : Flavor) (r : FReq) (fs : List (Bytes × Bytes))
+    (h : fields fl r = .ok fs) :
+    ∃ host path, fieldHost r = .ok host ∧ fieldPath r host = .ok path ∧
+      fs.Perm (wireOf (basePseudo fl r host path) ++ wireOf (baseRegular fl r)) := by
+  unfold fields at h
+  cases hh : fieldHost r with
+  | error e => simp [hh, bind, Except.bind] at h
+  | ok host =>
+    cases hp : fieldPath r host with
+    | error e => simp [hh, hp, bind, Except.bind] at h
+    | ok path =>
+      refine ⟨host, path, rfl, hp, ?_⟩
+      simp only [hh, hp, bind, Except.bind] at h
+      split at h
+      · simp [throw, throwThe, MonadExceptOf.throw] at h
+      · simp only [pure, Except.pure, Except.ok.injEq] at h
+        subst h
+        have e : ∀ a b : List KV, wireOf (a ++ b) = wireOf a ++ wireOf b := by
+          intro a b; simp [wireOf]
+        rw [e]
+        apply List.Perm.append
+        · unfold pseudoKVs
+          simp only
+          split
+          · exact List.Perm.refl _
+          · exact List.Perm.flatMap_right _ (sort_perm _ _)
+        · unfold regularKVs
+          simp only
+          split
+          · exact List.Perm.refl _
+          · exact List.Perm.flatMap_right _ (sort_perm _ _)
+
+/-- the regular groups contain no key `header.IsExcluded` rejects, except the `content-length`
+the writer adds itself: connection-specific fields and the bookkeeping keys are omitted. -/
+theorem baseRegular_not_excluded (fl : Flavor) (r : FReq) :
+    ∀ kv ∈ baseRegular fl r, isExcluded kv.key = false ∨ kv.key = sContentLengthL := by
+  intro kv hkv
+  unfold baseRegular at hkv
+  simp only [List.mem_append] at hkv
+  rcases hkv with ((hkv | hkv) | hkv) | hkv
+  · left
+    unfold headerGroups at hkv
+    obtain ⟨kv0, _, h1⟩ := List.mem_flatMap.mp hkv
+    split at h1
+    · simp at h1
+    next hne =>
+      have hne' : isExcluded kv0.key = false := by simpa using hne
+      split at h1
+      · split at h1
+        · simp at h1
+        · split at h1
+          · simp at h1
+          · simp at h1; subst h1; exact hne'
+      · split at h1
+        · simp at h1; subst h1; exact (by decide : isExcluded sCookieL = false)
+        · split at h1
+          · obtain ⟨v, _, rfl⟩ := List.mem_map.mp h1; exact hne'
+          · simp at h1; subst h1; exact hne'
+  · right
+    split at hkv
+    · simp at hkv; subst hkv; rfl
+    · simp at hkv
+  · left
+    split at hkv
+    · simp at hkv; subst hkv; decide
+    · simp at hkv
+  · left
+    split at hkv
+    · simp at hkv
+    · simp at hkv; subst hkv; decide
+
+/-- **wire_set is independent of the map iteration order (HTTP/2, HTTP/3)**: the regular fields
+of two runs that differ only in the iteration order of the header map are permutations of each
+other. -/
+theorem baseRegular_perm_invariant (fl : Flavor) (r : FReq) (h' : Hdr) (hh : r.header.Perm h') :
+    (baseRegular fl r).Perm (baseRegular fl { r with header := h' }) := by
+  unfold baseRegular
+  have hua : didUA r.header = didUA h' := by
+    unfold didUA; exact hh.any_eq
+  simp only [hua]
+  have hact : actualContentLength fl { r with header := h' } = actualContentLength fl r := rfl
+  rw [hact]
+  refine List.Perm.append (List.Perm.append (List.Perm.append ?_ (List.Perm.refl _))
+    (List.Perm.refl _)) (List.Perm.refl _)
+  unfold headerGroups
+  exact List.Perm.flatMap_right _ hh
+
+/-- **pseudo_order**: the pseudo header groups are a permutation of the default ones (each of
+`:authority :method :path :scheme` exactly once; two for CONNECT) and those named in the
+pseudo-header order list appear in the relative order of the list. -/
+theorem pseudo_order (fl : Flavor) (r : FReq) (host path : Bytes) :
+    (pseudoKVs fl r host path).Perm (basePseudo fl r host path) ∧
+    ((pseudoKVs fl r host path).filterMap
+        (fun kv => lastIndex (pseudoOrderList r.header) kv.key)).Pairwise (· ≤ ·) := by
+  unfold pseudoKVs
+  simp only
+  split
+  next hempty =>
+    refine ⟨List.Perm.refl _, ?_⟩
+    have : pseudoOrderList r.header = [] := by simpa using hempty
+    rw [this]
+    have : ∀ l : List KV, l.filterMap (fun kv => lastIndex [] kv.key) = [] := by
+      intro l; induction l with
+      | nil => rfl
+      | cons x xs _ => simp [lastIndex, lastIndex.go]
+    rw [this]
+    exact List.Pairwise.nil
+  next => exact ⟨sort_perm _ _, sort_listed_ordered _ _⟩
+
+/-- the same for the regular fields and the header-order list. -/
+theorem header_order_h2 (fl : Flavor) (r : FReq) :
+    (regularKVs fl r).Perm (baseRegular fl r) ∧
+    (¬ (orderList r.header).isEmpty →
+      ((regularKVs fl r).filterMap (fun kv => lastIndex (orderList r.header) kv.key)).Pairwise (· ≤ ·)) := by
+  unfold regularKVs
+  simp only
+  split
+  next hempty => exact ⟨List.Perm.refl _, fun h => absurd hempty h⟩
+  next => exact ⟨sort_perm _ _, fun _ => sort_listed_ordered _ _⟩
+
+/-- the HTTP/1.1 header-order statement on the whole collected list (Host, User-Agent, framing,
+caller fields, extra fields). -/
+theorem header_order_h1 (r : WReq) (host : Bytes) (f : Framing)
+    (hmode : (orderList r.header).isEmpty = false) :
+    ((h1Fields r host f).filterMap (fun kv => lastIndex (orderList r.header) kv.key)).Pairwise (· ≤ ·) := by
+  unfold h1Fields
+  simp only [hmode, Bool.not_false, if_true]
+  exact sort_listed_ordered _ _
+
+/-- non-vacuity: pseudo order `:scheme, :PATH, :method` (other case accepted) on an HTTP/2 GET. -/
+example :
+    (pseudoKVs .h2
+      { method := [71, 69, 84], url := { scheme := [104] }, header :=
+          [⟨pseudoHeaderOrderKey, [sScheme, [58, 80, 65, 84, 72], sMethod]⟩] } [104] [47]).map (·.key)
+    = [sAuthority, sScheme, sPath, sMethod] := by decide
+
+end Wire
 
 end Req.Props.C16
